@@ -39,8 +39,14 @@ func main() {
 			}
 			var bs []kit.Batch
 			for i := 0; i < nb; i++ {
-				bs = append(bs, kit.Batch{Name: fmt.Sprintf("prog%d", i), Seed: seed*1000 + int64(i), N: n,
-					Params: kit.MkParams(map[string]int{"budget": budget})})
+				bn, bb := n, budget
+				if tier != "thorough" && i%8 == 7 {
+					// two batches of few but big programs: thousands of events pending at once
+					// (queue growth / shrink paths), which the small-program batches never reach
+					bn, bb = n/12, 6000
+				}
+				bs = append(bs, kit.Batch{Name: fmt.Sprintf("prog%d", i), Seed: seed*1000 + int64(i), N: bn,
+					Params: kit.MkParams(map[string]int{"budget": bb})})
 			}
 			return bs
 		},
